@@ -679,5 +679,50 @@ def exEmptySysv : SymTab :=
 example : (exEmptySysv.getByName [] {}).toOption = some (false, {}) := by rfl
 
 
+
+/-- **lookup by name with no or a well-formed hash table** : on a well-formed table with valid
+    name offsets, accompanied by no hash section, a well-formed SysV table or a well-formed GNU
+    table, `get_symbol(name, …)` returns (no fault, the walks terminate), succeeds exactly when the
+    name is present, with the attributes of an entry of that name - the linear scan's when the
+    name is unique. -/
+theorem lookup_name_wellformed {t : SymTab} {symB strB : Bytes} (h : Wf t symB strB)
+    (hv : ValidNames t.cfg symB strB) (hk : HashOk t) (name : Bytes) (a : Attrs) :
+    ∃ r a', t.getByName name a = .ok (r, a') ∧
+      (r = true ↔ (Spec.lookupName (namesOfTable t.cfg symB strB) name).isSome = true) ∧
+      (r = true → SymAt t.cfg symB strB name a') ∧
+      ((∀ j j', j < countOf t.cfg.cls symB → j' < countOf t.cfg.cls symB →
+          nameAt t.cfg symB strB j = some name → nameAt t.cfg symB strB j' = some name → j = j') →
+        r = true → ∃ j0, Spec.lookupName (namesOfTable t.cfg symB strB) name = some j0 ∧
+          a' = attrsOfRec (recAt t.cfg symB j0)) := by
+  obtain ⟨⟨r, a'⟩, e⟩ := getByName_total h name a (hashPhase_total h hk name a)
+  exact ⟨r, a', e, lookup_name h hv name a r a' e⟩
+
+
+
+/-- the SysV table the ABI construction gives for the names "", "a", "b", "ab" with 3 buckets (LSB) -/
+def exSysv : Bytes := [3,0,0,0, 4,0,0,0, 3,0,0,0, 1,0,0,0, 2,0,0,0, 0,0,0,0, 0,0,0,0, 0,0,0,0, 0,0,0,0]
+example : SysvWf .lsb exSysv := by
+  refine ⟨by decide, by decide, by decide, ?_⟩
+  have h : ∀ y, y < 4 → 1 ≤ y → wordAt .lsb exSysv (2 + 3 + y) < y := by decide
+  intro y h1 h2
+  have e0 : wordAt .lsb exSysv 0 = 3 := by decide
+  have e1 : wordAt .lsb exSysv 1 = 4 := by decide
+  rw [e0]; rw [e1] at h2
+  exact h y h2 h1
+
+/-- the GNU table (ELF64, MSB) for "", "a", "b", "ab": 3 buckets, symoffset 1, 2 bloom words, shift 5 -/
+def exGnu : Bytes := [0,0,0,3, 0,0,0,1, 0,0,0,2, 0,0,0,5, 2,1,1,0,0,0,0,192, 0,0,0,0,0,0,0,0,
+  0,0,0,0, 0,0,0,1, 0,0,0,2, 0,2,182,7, 0,2,182,6, 0,89,119,41]
+example : GnuWf .msb .c64 exGnu 3 := by
+  refine ⟨by decide, by decide, by decide, by decide, ?_, by decide⟩
+  have e0 : hw32 .msb exGnu 0 = 3 := by decide
+  have e8 : hw32 .msb exGnu 8 = 2 := by decide
+  have h : ∀ b, b < 3 → hw32 .msb exGnu 4 ≤ hw32 .msb exGnu (16 + 2 * bloomW .c64 + 4 * b) →
+      hw32 .msb exGnu (16 + 2 * bloomW .c64 + 4 * b) - hw32 .msb exGnu 4 < 3 := by decide
+  intro b hb
+  rw [e0] at hb; rw [e8]
+  exact h b hb
+
+
 end C09
 end ElfioVerif
